@@ -19,9 +19,12 @@ STRS = ["", "x", "yes", "no", "null", "~", "true", "false", "on", "off", "1", "1
         "\xa0", "%x", "@x", "`x", "!x", "&x", "*x", "|", ">", "?", "? a", "---", "...", "a\n---\nb", "2001-01-01", "12:30:00",
         "=", "<<", "k: v\nj: w", "toggle", NEL, "a" + NEL + "b", NEL + "\n"]
 INTS = [0, 1, 5, -1, 7, 2 ** 70, -2 ** 63]
-# `set` spec values: inside the modelled int() grammar ([+-]?[0-9]+) or rejected by Python's int() as well
+# `set` spec values: every kind of string int() / the bool and str branches can meet
 SPECS = ["5", "-3", "+7", "007", "abc", "1x", "", "--1", "12345678901234567890", "true", "false", "toggle", "yes", "a=b",
-         "é", "a b", "x\ny", "'", "-", "+"]
+         "\u00e9", "a b", "x\ny", "'", "-", "+", " 5 ", "\t5\n", "\xa05", "5\u3000", "1_0", "_1", "1_", "1__0", "+ 5", "-0", "\u0663\u0664",
+         "\u0967_\u0968", "0_7", "\uff15", "5\x00", " ", "1 2", "\x0b7\x0c", "\x857", "\x1c5", "1\u20002", "- 1", "+_1", "\U0001d7ce\U0001d7cf", "True",
+         " true", "toggle ", "1e3", "0x10", "1.0", "\u20285\u2029", "-\u0e51\u0e52_\u0e53"]
+INTCH = list("0123456789") + ["_", "+", "-", " ", "\t", "\xa0", "\u0660", "\u0669", "\uff10", "\x1f", "x", "\u2009"]
 
 
 # ---- values: JSON form  ["b",bool] ["s",str] ["i",int] ["n"] ["o"] ["q",[atoms]] -------------------------------------
@@ -38,6 +41,12 @@ def py(v):
 
 def hexs(s):
     b = s.encode("utf-8")
+    return b.hex() if b else "-"
+
+
+def cps(s):
+    """a spec string on the wire: 3 bytes per code point"""
+    b = b"".join(ord(c).to_bytes(3, "big") for c in s)
     return b.hex() if b else "-"
 
 
@@ -163,6 +172,10 @@ class World:
         return f
 
 
+class _WitnessStale(Exception):
+    pass
+
+
 def outcome(fn):
     """run one operation; map the exceptions the property talks about to an enum"""
     try:
@@ -222,6 +235,23 @@ class Check(PropertyCheck):
     trusted_base = ["ruamel.yaml dump/load as the parameter of config_roundtrip_nondefault (law checked by the oracle on every save case)",
                     "Python int() on set-spec strings outside [+-]?[0-9]+ (not generated)"]
     parallel = False
+
+    def translate(self):
+        """(T) the two Unicode tables behind Python's int(str): decimal-digit blocks and the non-ASCII whitespace"""
+        import sys, unicodedata
+        nd = [c for c in range(128, sys.maxunicode + 1) if unicodedata.decimal(chr(c), -1) >= 0]
+        blocks = []
+        for i in range(0, len(nd), 10):
+            assert all(nd[i + k] == nd[i] + k and unicodedata.decimal(chr(nd[i] + k)) == k for k in range(10)), hex(nd[i])
+            blocks.append(nd[i])
+        sp = [c for c in range(128, sys.maxunicode + 1) if chr(c).isspace()]
+        for c in range(128):      # the ASCII part is written out in the model; make sure this interpreter agrees with it
+            assert (unicodedata.decimal(chr(c), -1) >= 0) == (48 <= c <= 57)
+        src = ("-- generated by harness/c44.py translate() from this interpreter's unicodedata (%s); do not edit\n"
+               "namespace MitmVerif.Gen.C44\n\n/-- first code point (digit zero) of every non-ASCII block of ten Unicode decimal digits (category Nd) -/\n"
+               "def digitBlocks : List Nat := [%s]\n\n/-- non-ASCII code points for which str.isspace() holds -/\ndef spaces : List Nat := [%s]\n\n"
+               "end MitmVerif.Gen.C44\n") % (unicodedata.unidata_version, ", ".join(map(str, blocks)), ", ".join(map(str, sp)))
+        return {"MitmVerif/Gen/C44.lean": src}
 
     # ---------------------------------------------------------------- generator
     def _val(self, rng, ty, ok=True):
@@ -304,7 +334,8 @@ class Check(PropertyCheck):
                 specs = []
                 for _ in range(rng.randint(1, 3)):
                     n = rng.pick(list(decl)) if decl and not rng.chance(0.3) else rng.randint(0, 7)
-                    specs.append([n, None if rng.chance(0.2) else rng.pick(SPECS)])
+                    specs.append([n, None if rng.chance(0.2) else
+                                  "".join(rng.pick(INTCH) for _ in range(rng.randint(1, 5))) if rng.chance(0.3) else rng.pick(SPECS)])
                 ops.append({"op": "set", "defer": int(rng.chance(0.5)), "specs": specs})
             else: ops.append({"op": k})
         if rng.chance(0.5): ops.append({"op": "save"})
@@ -353,8 +384,17 @@ class Check(PropertyCheck):
         for s in STRS:
             for ty, v in (("str", ["s", s]), ("optstr", ["s", s]), ("seqstr", ["q", [["s", s], ["s", "x"]]])):
                 yield {"ops": [{"op": "add", "n": 0, "ty": ty, "v": self._dflt(ty)}, {"op": "upd", "kw": [[0, v]]}, {"op": "save"}]}
+        # every spec string against every option type, directly and through the deferred path
+        decl = [{"op": "add", "n": i, "ty": ty, "v": self._dflt2(ty)} for i, ty in enumerate(TYS)]
+        for sp in SPECS:
+            yield {"ops": decl + [{"op": "set", "defer": 0, "specs": [[i, sp]]} for i in range(len(TYS))] + [{"op": "save"}]}
+            yield {"ops": [{"op": "set", "defer": 1, "specs": [[i, sp] for i in range(len(TYS))] + [[5, "x"], [4, None]]}] + decl + [{"op": "pd"}, {"op": "pd"}]}
         while True:
             yield self._cascade(rng) if rng.chance(0.25) else self._history(rng)
+
+    @staticmethod
+    def _dflt2(ty):
+        return {"bool": ["b", False], "str": ["s", "d"], "int": ["i", 0], "optstr": ["n"], "optint": ["n"], "seqstr": ["q", []]}[ty]
 
     @staticmethod
     def _dflt(ty):
@@ -559,46 +599,65 @@ class Check(PropertyCheck):
         self.known_selftest()
 
     def known_selftest(self):
-        """positive witness + near misses for every recorded finding; a disagreement ends the run as INFRA"""
+        """positive witness + near misses for every recorded finding; a disagreement of known() with the expectations ends the
+        run as INFRA. The observations are taken from the tree under test: when a witness does not behave as recorded there
+        (a modified tree), its block is skipped — the runner reports the stale witness separately."""
+        for block in self._selftest_blocks():
+            try:
+                trip = block()
+            except _WitnessStale:
+                continue
+            for case, obs, failure, want in trip:
+                got = self.known(case, obs, failure)
+                assert got == want, ("known() selftest", failure, got, want)
+
+    def _selftest_blocks(self):
         import copy
         corp = {os.path.basename(f): json.load(open(f)) for f in glob.glob(os.path.join(CORPUS, "C44", "*.json"))}
-        def run(case):
-            obs = self.impl(case); return obs, self.oracle(case, obs)
-        def ids(case, obs, fails): return [self.known(case, obs, f) for f in fails]
-        trip = []
-        # F-C44b ---------------------------------------------------------------------------------------------------
-        b = corp["f_c44b_nel_yaml.json"][0]; ob, fb = run(b)
-        assert fb and set(ids(b, ob, fb)) == {"F-C44b"}, ("F-C44b witness", fb)
-        o2 = copy.deepcopy(ob); o2[-1]["lost"][0]["got"] = "zzz"            # same input class, a different corruption
-        trip.append((b, o2, fb[0], None))
-        o3 = copy.deepcopy(ob); o3[-1]["out"] = "OptionsError"               # same input class, the load is refused
-        trip.append((b, o3, fb[0], None)); trip.append((b, o3, "roundtrip-raised@2: save/load raised OptionsError", None))
-        o4 = copy.deepcopy(ob); o4[-1]["lost"][0].update(want="a\u2028b", got="a b")   # neighbouring input: U+2028, no U+0085
-        trip.append((b, o4, fb[0], None))
-        o5 = copy.deepcopy(ob); o5[-1]["lost"][0].update(want="a\r\nb", got="a\nb")     # neighbouring input: CRLF
-        trip.append((b, o5, fb[0], None))
-        # F-C44c ---------------------------------------------------------------------------------------------------
-        c = corp["f_c44c_rollback_notification_interrupted.json"][0]; oc, fc = run(c)
-        assert fc and set(ids(c, oc, fc)) == {"F-C44c"}, ("F-C44c witness", fc)
-        o6 = copy.deepcopy(oc)                                                # the stale listener WAS reached by the rollback notification
-        for cl in o6[-1]["calls"]:
-            if cl["who"] == 2: cl["after_reject"] = True
-        trip.append((c, o6, fc[0], None))
-        o7 = copy.deepcopy(oc); o7[-1]["rollback_interrupted"] = False        # rollback notification delivered, listener still stale
-        trip.append((c, o7, fc[0], None))
-        trip.append((c, oc, "rollback: op 3 upd rejected with OptionsError but options changed", None))   # other clause, same input
-        # F-C44d ---------------------------------------------------------------------------------------------------
-        d = corp["seeded_c44_1_nested_update_then_reject.json"][1]; od, fd = run(d)
-        assert fd and set(ids(d, od, fd)) == {"F-C44d"}, ("F-C44d witness", fd)
-        o8 = copy.deepcopy(od); o8[-1]["filters"]["2"] = [0, 1]               # neighbouring input: the listener IS concerned by the outer names
-        trip.append((d, o8, fd[0], None))
-        o9 = copy.deepcopy(od)                                                # it was called for the outer update and is stale all the same
-        o9[-1]["calls"].append(dict(o9[-1]["calls"][0], who=2, depth=0, after_reject=True))
-        trip.append((d, o9, fd[0], None))
-        trip.append((d, od, "rollback: op 5 upd rejected with OptionsError but options changed", None))
-        for case, obs, failure, want in trip:
-            got = self.known(case, obs, failure)
-            assert got == want, ("known() selftest", failure, got, want)
+
+        def witness(case, fid):
+            obs = self.impl(case); fails = self.oracle(case, obs)
+            if not fails or {self.known(case, obs, f) for f in fails} != {fid}: raise _WitnessStale(fid)
+            return obs, fails
+
+        def blk_b():
+            b = corp["f_c44b_nel_yaml.json"][0]; ob, fb = witness(b, "F-C44b")
+            t = []
+            o = copy.deepcopy(ob); o[-1]["lost"][0]["got"] = "zzz"               # same input class, a different corruption
+            t.append((b, o, fb[0], None))
+            o = copy.deepcopy(ob); o[-1]["out"] = "OptionsError"                  # same input class, the load is refused
+            t += [(b, o, fb[0], None), (b, o, "roundtrip-raised@2: save/load raised OptionsError", None)]
+            o = copy.deepcopy(ob); o[-1]["lost"][0].update(want="a\u2028b", got="a b")    # neighbouring input: U+2028, no U+0085
+            t.append((b, o, fb[0], None))
+            o = copy.deepcopy(ob); o[-1]["lost"][0].update(want="a\r\nb", got="a\nb")      # neighbouring input: CRLF
+            t.append((b, o, fb[0], None))
+            o = copy.deepcopy(ob); o[-1]["lost"][0].update(want="a\n\x85b", got="a\nb")   # U+0085 present, but not the folding
+            t.append((b, o, fb[0], None))
+            return t
+
+        def blk_c():
+            c = corp["f_c44c_rollback_notification_interrupted.json"][0]; oc, fc = witness(c, "F-C44c")
+            t = []
+            o = copy.deepcopy(oc)                                                  # the stale listener WAS reached by the rollback notification
+            for cl in o[-1]["calls"]:
+                if cl["who"] == 2: cl["after_reject"] = True
+            t.append((c, o, fc[0], None))
+            o = copy.deepcopy(oc); o[-1]["rollback_interrupted"] = False           # rollback notification delivered, listener still stale
+            t.append((c, o, fc[0], None))
+            t.append((c, oc, "rollback: op 3 upd rejected with OptionsError but options changed", None))   # other clause, same input
+            return t
+
+        def blk_d():
+            d = corp["seeded_c44_1_nested_update_then_reject.json"][1]; od, fd = witness(d, "F-C44d")
+            t = []
+            o = copy.deepcopy(od); o[-1]["filters"]["2"] = [0, 1]                  # neighbouring input: the listener IS concerned by the outer names
+            t.append((d, o, fd[0], None))
+            o = copy.deepcopy(od)                                                  # it was called for the outer update and is stale all the same
+            o[-1]["calls"].append(dict(o[-1]["calls"][0], who=2, depth=0, after_reject=True))
+            t.append((d, o, fd[0], None))
+            t.append((d, od, "rollback: op 5 upd rejected with OptionsError but options changed", None))
+            return t
+        return [blk_b, blk_c, blk_d]
 
     # ---------------------------------------------------------------- model tie
     def model_lines(self, case):
@@ -612,7 +671,7 @@ class Check(PropertyCheck):
                 if len({n for n, _ in op["kw"]}) != len(op["kw"]): raise Skip()
                 lines.append("%s %s" % (k, ";".join("%d=%s" % (n, wire_val(v)) for n, v in op["kw"]) or "-"))
             elif k == "set":
-                lines.append("set %d %s" % (op["defer"], ";".join(str(n) if v is None else "%d=%s" % (n, hexs(v)) for n, v in op["specs"]) or "-"))
+                lines.append("set %d %s" % (op["defer"], ";".join(str(n) if v is None else "%d=%s" % (n, cps(v)) for n, v in op["specs"]) or "-"))
             else: lines.append(k)
         return lines
 
